@@ -77,6 +77,11 @@ type vc08Tape struct {
 	r     *vRand
 	out   []int
 	clean bool // mostly well-formed leaves (first choice of the tape)
+	// decode-onto stream: an empty collection is always the nil one, addresses are private copies (encoding/json decodes
+	// INTO the address an interface already holds), and a generated choice is 0 (the empty / zero alternative) with
+	// probability sparse %
+	onto   bool
+	sparse int
 }
 
 func (t *vc08Tape) next(n int) int {
@@ -85,6 +90,8 @@ func (t *vc08Tape) next(n int) int {
 		if t.pos < len(t.in) {
 			v = t.in[t.pos]
 		}
+	} else if t.sparse > 0 && t.r.chance(t.sparse) {
+		v = 0
 	} else {
 		v = t.r.intn(n)
 	}
@@ -151,7 +158,7 @@ func vc08Fill(v reflect.Value, t *vc08Tape, depth int) {
 		}
 		return
 	case vc08TMaddrW:
-		v.Set(reflect.ValueOf(Multiaddr{Multiaddr: vc08Addrs[t.next(len(vc08Addrs))]}))
+		v.Set(reflect.ValueOf(Multiaddr{Multiaddr: vc08AddrOf(t, vc08Addrs[t.next(len(vc08Addrs))])}))
 		return
 	case vc08TStatus:
 		k := t.next(len(vc08GenStatus))
@@ -175,7 +182,7 @@ func vc08Fill(v reflect.Value, t *vc08Tape, depth int) {
 		return
 	}
 	if ty == vc08TMaddrI {
-		v.Set(reflect.ValueOf(vc08Addrs[t.next(len(vc08Addrs))]))
+		v.Set(reflect.ValueOf(vc08AddrOf(t, vc08Addrs[t.next(len(vc08Addrs))])))
 		return
 	}
 	switch ty.Kind() {
@@ -189,7 +196,7 @@ func vc08Fill(v reflect.Value, t *vc08Tape, depth int) {
 		v.SetBool(t.next(2) == 1)
 	case reflect.Slice:
 		n := t.next(5) - 1 // -1: nil, 0: empty, 1..3 elements
-		if n < 0 {
+		if n < 0 || (n == 0 && t.onto) {
 			return
 		}
 		if depth > 3 && n > 1 {
@@ -206,13 +213,17 @@ func vc08Fill(v reflect.Value, t *vc08Tape, depth int) {
 		v.Set(s)
 	case reflect.Map:
 		n := t.next(5) - 1
-		if n < 0 {
+		if n < 0 || (n == 0 && t.onto) {
 			return
 		}
 		m := reflect.MakeMap(ty)
 		for i := 0; i < n; i++ {
 			k := reflect.New(ty.Key()).Elem()
-			k.SetString(vc08GenKeys[t.next(len(vc08GenKeys))])
+			nk := len(vc08GenKeys)
+			if t.onto {
+				nk = 3 // few keys: the destination and the decoded value meet on the same key often
+			}
+			k.SetString(vc08GenKeys[t.next(nk)])
 			e := reflect.New(ty.Elem()).Elem()
 			vc08Fill(e, t, depth+1)
 			m.SetMapIndex(k, e)
@@ -232,6 +243,15 @@ func vc08Fill(v reflect.Value, t *vc08Tape, depth int) {
 	default:
 		panic("vc08Fill: unsupported kind " + ty.String())
 	}
+}
+
+func vc08AddrOf(t *vc08Tape, a multiaddr.Multiaddr) multiaddr.Multiaddr {
+	if !t.onto {
+		return a
+	}
+	c, err := multiaddr.NewMultiaddrBytes(a.Bytes())
+	vc08Must(err)
+	return c
 }
 
 // ---------------------------------------------------------------- rendering as a `val` term
@@ -339,11 +359,15 @@ func vc08JSONCycle(src reflect.Value) (string, []byte) {
 }
 
 func vc08BuildValue(typ string, tape []int, r *vRand) (reflect.Value, []int, bool) {
+	return vc08BuildValueOpt(typ, tape, r, false, 0)
+}
+
+func vc08BuildValueOpt(typ string, tape []int, r *vRand, onto bool, sparse int) (reflect.Value, []int, bool) {
 	ty, ok := vc08Types[typ]
 	if !ok {
 		return reflect.Value{}, nil, false
 	}
-	t := &vc08Tape{in: tape, use: r == nil, r: r}
+	t := &vc08Tape{in: tape, use: r == nil, r: r, onto: onto, sparse: sparse}
 	t.clean = t.next(10) < 7
 	v := reflect.New(ty).Elem()
 	vc08Fill(v, t, 0)
@@ -380,4 +404,56 @@ func vc08GenCodec(r *vRand) vc08Case {
 		kind = "js"
 	}
 	return vc08Case{Kind: kind, Type: typ, Tape: tape}
+}
+
+// ---------------------------------------------------------------- decoding onto a destination in use
+// kinds mpo / jso: value B (Tape) is encoded and decoded INTO a destination of the same type that already holds value A
+// (Tape2), with the same decoders and handles the fresh-value streams use; the result is compared with dec_onto.
+func vc08RunOnto(out *vOut, c vc08Case) {
+	a, _, ok := vc08BuildValueOpt(c.Type, c.Tape2, nil, true, 0)
+	if !ok {
+		return
+	}
+	b, _, _ := vc08BuildValueOpt(c.Type, c.Tape, nil, true, 0)
+	ta, tb := vc08Val(a), vc08Val(b)
+	obs := ""
+	cd := "Msgpack"
+	if c.Kind == "jso" {
+		cd = "Json"
+		buf, err := json.Marshal(b.Addr().Interface())
+		if err != nil {
+			obs = "ObsVEncErr"
+		} else if err := json.Unmarshal(buf, a.Addr().Interface()); err != nil {
+			obs = "ObsVDecErr"
+		}
+	} else {
+		var buf []byte
+		if err := codec.NewEncoderBytes(&buf, &codec.MsgpackHandle{}).Encode(b.Addr().Interface()); err != nil {
+			obs = "ObsVEncErr"
+		} else if err := codec.NewDecoderBytes(buf, &codec.MsgpackHandle{}).Decode(a.Addr().Interface()); err != nil {
+			obs = "ObsVDecErr"
+		}
+	}
+	if obs == "" {
+		obs = "(ObsV " + vc08Val(a) + ")"
+	}
+	out.count(c.Kind + ":" + c.Type + ":" + obs[:strings.IndexAny(obs+" ", " ")])
+	out.add(fmt.Sprintf("COnto %s %s %s %s %s", cd, vc08Str(c.Type), ta, tb, obs), c, obs, true)
+}
+
+func vc08GenOnto(r *vRand) vc08Case {
+	names := vc08TypeList()
+	typ := names[r.intn(len(names))]
+	if r.chance(45) {
+		// maps of pointers to structs, slices of structs, pointers to structs, interface elements
+		typ = []string{"GlobalPinInfo", "GlobalRepoGC", "GlobalPinInfo", "GlobalRepoGC", "RepoGC", "ID", "Pin", "PinInfo", "ConnectGraph", "AddParams"}[r.intn(10)]
+	}
+	// the destination mostly full, the decoded value mostly sparse (empty members, nil pointers, shorter lists, other keys)
+	_, ta, _ := vc08BuildValueOpt(typ, nil, r.fork(), true, []int{0, 0, 10, 40}[r.intn(4)])
+	_, tb, _ := vc08BuildValueOpt(typ, nil, r.fork(), true, []int{0, 25, 50, 70}[r.intn(4)])
+	kind := "mpo"
+	if r.chance(50) {
+		kind = "jso"
+	}
+	return vc08Case{Kind: kind, Type: typ, Tape: tb, Tape2: ta}
 }
